@@ -114,13 +114,45 @@ def reads_are_not_writes(chk, rng, b, ci, inp0):
                 break
 
 
+def assigned_inside(x):
+    """something was assigned inside x: x itself is marked, a container of x has content, or the same holds for a
+    sub-message x holds (x.sub.leaf.v = 0 assigns inside x although x.sub is only a lazily created holder)"""
+    import dataclasses
+    if x._serialized_on_wire or x._unknown_fields:
+        return True
+    for fld in dataclasses.fields(x):
+        try:
+            v = x._Message__raw_get(fld.name)
+        except AttributeError:
+            continue
+        if isinstance(v, betterproto.Message):
+            if assigned_inside(v):
+                return True
+        elif isinstance(v, (list, dict)) and v:
+            return True
+    return False
+
+
+def _d49():
+    """m.a.b.x = 0: b is present, a is a lazily created holder with nothing but b's presence inside"""
+    schema = [bpgen.M("M0", [bpgen.F("a", 1, "message", kind="u1")]),
+              bpgen.M("M1", [bpgen.F("b", 1, "message", kind="u2")]), bpgen.M("M2", [bpgen.F("x", 1, "int32")])]
+    O, B, C = bpgen.build_bp(schema)
+    m = O()
+    m.a.b.x = 0
+    return betterproto.serialized_on_wire(m.a.b) and not betterproto.serialized_on_wire(m.a) and bytes(m) == b""
+
+
 def inplace_presence(chk, rng, b, ci, inp0):
     """set 'via attribute assignment' also means assignment INSIDE: a plain sub-message reached through
     `m.sub.inner.x = 1` / `m.sub.items.append(1)` is emitted, and serialized_on_wire must report it (D46)"""
     from props.c09 import fill_inplace
     cls, md = b.classes[ci], b.schema[ci]
-    for _ in range(3):
-        v = bpgen.gen_msg(rng, b.schema, ci, 2)
+    from props.c14 import zeroed
+    for k in range(4):
+        v = bpgen.gen_msg(rng, b.schema, ci, 3)
+        if k % 2:
+            v = zeroed(v)       # default values only: what is assigned is presence
         try:
             m = cls()
             t = fill_inplace(m, b, ci, v, rng)
@@ -141,6 +173,12 @@ def inplace_presence(chk, rng, b, ci, inp0):
                 emitted = f.num in nums
                 if emitted != ow:
                     chk.fail("submessage-emission-differs-from-serialized_on_wire", dict(inp, field=f.name), "emitted=%s onwire=%s bytes=%s" % (emitted, ow, data.hex()))
+                ai = assigned_inside(sub)
+                chk.count("inplace_assigned_inside_%d" % ai)
+                if ai != ow:
+                    # presence_only: the holder's VALUE is still the default — all that was assigned inside is presence further down
+                    chk.fail("assigned-inside-not-reported", dict(inp, field=f.name, presence_only=bool(ai and sub == type(sub)())),
+                             "something assigned inside=%s serialized_on_wire=%s emitted=%s bytes=%s" % (ai, ow, emitted, data.hex()))
         try:
             back = cls().parse(data)
             got, want = bp_presence(back, md), ref_presence(b.refs[ci], data, md)
@@ -279,10 +317,15 @@ def replay_known(chk, entry):
         m = O()
         m.a.b.x = 1
         return bool(bytes(m)) and not betterproto.serialized_on_wire(m.a)
+    if entry.get("id") == "D49":
+        return _d49()
     return False
 
 
 def classify(failure, known):
+    inp = failure["input"] or {}
+    if any(e["id"] == "D49" for e in known) and failure["kind"] == "assigned-inside-not-reported" and inp.get("presence_only"):
+        return "D49"
     return None
 
 
